@@ -197,8 +197,18 @@ def components_ok(self, cls_name):
 def nested(spec_closed, spec_open, self, x, y):
     """(3) spec-level lemma: a point of the closed inner shape lies in the open outer shape (inner sizes < outer sizes)"""
     c, s = cs(self.angle)
+    if spec_closed is ellipse_closed:
+        # the nonlinear step, proved for all reals on its own and used at the point's coordinates in the shape's frame
+        from vprim import general
+        from spec.geometry import to_shape_frame
+        u, v = to_shape_frame(self.center.x, self.center.y, c, s, x, y)
+        general('nested_ellipses', _nested_ellipses, u, v, self.inner_width / 2, self.inner_height / 2, self.outer_width / 2, self.outer_height / 2)
     return implies(spec_closed(self.center.x, self.center.y, self.inner_width, self.inner_height, c, s, x, y),
                    spec_open(self.center.x, self.center.y, self.outer_width, self.outer_height, c, s, x, y))
+
+
+def _nested_ellipses(u, v, a, b, A, B):
+    return (not (0 < a and a < A and 0 < b and b < B and (u / a) * (u / a) + (v / b) * (v / b) <= 1)) or (u / A) * (u / A) + (v / B) * (v / B) < 1
 
 
 @contract(ELLIPSE_ANN + '.contains', props=['C01', 'C08', 'C13'])
